@@ -132,7 +132,7 @@ Definition run_reflect (t : tm) : tm :=
   (* Read(&x), x : ty a fresh zero variable *)
   | TL [TN 1; ty; TB bs] =>
       match get_ty ty with
-      | Some ty => t_out (fun p => TL [t_val (fst p); consumed bs (snd p)]) (fst (read ty bs))
+      | Some ty => t_out (fun p => TL [t_val (fst p); consumed bs (fst (snd p))]) (fst (read0 ty bs))
       | None => tm_err 1
       end
   (* WriteFrom(vals...) *)
@@ -144,7 +144,7 @@ Definition run_reflect (t : tm) : tm :=
   (* ReadInto(&a, ...) over variables holding the given old values: variables afterwards + outcome *)
   | TL [TN 3; TL l; TB bs] =>
       match get_pairs l with
-      | Some l => let '(vs, o) := read_into_vars l bs in TL [tlist t_val vs; t_out (consumed bs) o]
+      | Some l => let '(vs, o) := read_into_vars0 l bs in TL [tlist t_val vs; t_out (fun st => consumed bs (fst st)) o]
       | None => tm_err 1
       end
   (* primitives, writer side *)
@@ -180,7 +180,7 @@ Definition run_reflect (t : tm) : tm :=
   (* the model's cost meter for Read: (allocated bytes, iterations) *)
   | TL [TN 7; ty; TB bs] =>
       match get_ty ty with
-      | Some ty => let c := snd (read ty bs) in TL [TN (fst c); TN (snd c)]
+      | Some ty => let c := snd (read0 ty bs) in TL [TN (fst c); TN (snd c)]
       | None => tm_err 1
       end
   | _ => tm_err 0
